@@ -372,7 +372,9 @@ func runC20(r *mon.Run) {
 					func() []byte { sig, _ := priv.Sign(secec.RFC6979SHA256(), dig, nil); return sig },
 					func() []byte { sig, _ := spriv.Sign(&fixedReader{data: dig}, dig, nil); return sig },
 					func() []byte { return new(Point).ScalarMult(sc, pt).CompressedBytes() },
-					func() []byte { return []byte{byte(boolU64(pub.Equal(priv.PublicKey()))), byte(boolU64(spub.Equal(spriv.PublicKey())))} },
+					func() []byte {
+						return []byte{byte(boolU64(pub.Equal(priv.PublicKey()))), byte(boolU64(spub.Equal(spriv.PublicKey())))}
+					},
 				}
 			}
 			acc := build()
